@@ -374,13 +374,13 @@ def _make_default(jd):
 def _recorder(text, sink, filekind="io"):
     """filekind: "io" (behaves like the io classes), "none_write" (write() returns None, as codecs.StreamWriter, Twisted's
     LogFile and many hand-written wrappers do), "mode_lies" (a text-only file whose .mode says "wb", as the streams of
-    codecs.open(path, "w", encoding=...) do; a bytes-only file whose .mode has no "b")"""
+    codecs.open(path, "w", encoding=...) do; the bytes file says "wb" too)"""
     import io
     base = io.StringIO if text else io.BytesIO
 
     class Rec(base):
         if filekind == "mode_lies":
-            mode = "wb" if text else "w+"
+            mode = "wb"            # truthful for the bytes file, misleading for the text-only one
 
         def write(self, data):
             n = base.write(self, data)          # a text file raises TypeError on bytes (the mode probe)
